@@ -143,7 +143,12 @@ class Ctx:
         return self.args[name]
 
     def local(self, name):
-        return self.locals[name]
+        if name not in self.locals:
+            name = getattr(self.ex, "local_rename", {}).get(name, name)      # the local was renamed (same binding order): follow it
+        v = self.locals[name]
+        if isinstance(v, sv.SPy) and v.what == "alias":
+            return self.ex.eval(v.payload, self.path)     # a local that names a container living in the heap
+        return v
 
     def post_arg(self, name):
         """value of a by-reference (container) argument after the call"""
